@@ -178,7 +178,8 @@ def checkCoilExtract (op : ExtractOp) (rs : List OutExt) : Option String :=
     let unreachable := r.names.any fun k => match find k with
       | some f => f.addr.toNat < r.start || f.addr.toNat - r.start ≥ nbits
       | none => true
-    if r.status == "failed" then
+    if r.status == "parse-err" then some "the conforming reply to the request was refused by the library's own response parser"
+    else if r.status == "failed" then
       (if !op.lenient && unreachable then none else some "coil extraction failed as a whole although every field is inside the payload (or lenient mode)")
     else if r.status == "all" || r.status == "some" then
       if r.vals.map (·.1) != r.names then some "a delivering request must report exactly its own fields" else
